@@ -396,7 +396,14 @@ breakpoint, each piece = integral of its source piece up to the constant -/
 def pwIntegral (cmd : String) (tag : Option String) (src : List (FX × List FX)) (knot : List FX) (impl : Out) : Option String :=
   match tag with
   | some t =>
-    if !t.startsWith "p" then none else
+    if !t.startsWith "p" then
+      -- log-polynomial pieces: only the additive-constant clause can be checked without ln
+      (if cmd == "pwindef" || cmd == "segindef" then
+        match impl with
+        | .segs ((_, .v c0 :: _) :: _) => if c0 == F64.zero false then none else some "indefinite(): first additive constant is not zero"
+        | _ => none
+       else none)
+    else
     match impl, segsRat src with
     | .segs rs, some ss =>
       match segsRat rs, knot.mapM (fun k => (unv k).bind F64.toRat?) with
@@ -469,6 +476,22 @@ def ops (cmd : String) (tag : Option String) (p q : List FX) (s : Option FX) (im
       | some e => if e == out then none else some s!"{cmd}: the numbers of the result are not the correctly rounded operation on the corresponding numbers"
   | _, _, _, .panic => some "operator panicked on finite input"
   | _, _, _, _ => none
+
+/-- C15: every piece of the result is the piece-level operation applied to the corresponding piece (number by
+number, as `ops`), and the shape is kept -/
+def pwOps (cmd : String) (tag : Option String) (src : List (FX × List FX)) (s : Option FX) (impl : Out) : Option String :=
+  match impl with
+  | .segs rs =>
+    if rs.length != src.length then some "number of pieces changed"
+    else if !(List.zip rs src).all (fun (a, b) => sameF a.1 b.1 || (match a.1, b.1 with | .v x, .v y => x.isNaN && y.isNaN | _, _ => false))
+      then some "a breakpoint changed"
+    else
+      (List.zip rs src).zipIdx.findSome? fun ((r, p), i) =>
+        match ops cmd tag p.2 [] s (.nums r.2) with
+        | some w => some s!"piece #{i}: {w}"
+        | none => none
+  | .panic => some "operation panicked"
+  | _ => some "unexpected output shape"
 
 /-- C15 / C08: a segment / piecewise scalar operation keeps the number of pieces, their order and every
 breakpoint bit-identical -/
